@@ -1253,7 +1253,8 @@ class CompilerPassGatherCode(CompilerPass):
 
         for line_num, line in enumerate(new_code):
             for label, target_line in label_map.items():
-                pattern = r"\b{}\b".format(re.escape(label))
+                # labels may contain dots (function names): a dot is part of a label token
+                pattern = r"(?<![\w.]){}(?![\w.])".format(re.escape(label))
                 if re.search(pattern, line):
                     if relative_numbers:
                         offset = target_line - line_num
